@@ -81,25 +81,30 @@ class Schedule(drivers.IrcDriver):
 
         name must be hashable and not an int.
         """
-        if name is None:
-            name = self.counter
-            self.counter += 1
-        assert name not in self.events, \
-               'An event with the same name has already been scheduled.'
+        # The name check and both updates belong to one critical section:
+        # run() (another thread) pops from the heap and from the dict
+        # under the same lock.
         with self.lock:
+            if name is None:
+                name = self.counter
+                self.counter += 1
+            assert name not in self.events, \
+                   'An event with the same name has already been scheduled.'
             self.events[name] = f
             heapq.heappush(self.schedule, mytuple((t, name, args, kwargs)))
         return name
 
     def removeEvent(self, name):
         """Removes the event with the given name from the schedule."""
-        f = self.events.pop(name)
         # We must heapify here because the heap property may not be preserved
         # by the above list comprehension.  We could, conceivably, just mark
         # the elements of the heap as removed and ignore them when we heappop,
         # but that would only save a constant factor (we're already linear for
         # the listcomp) so I'm not worried about it right now.
         with self.lock:
+            # (inside the lock: a run() in another thread that popped this
+            # event from the heap must still find it in the dict)
+            f = self.events.pop(name)
             self.schedule = [x for x in self.schedule if x[1] != name]
             heapq.heapify(self.schedule)
         return f
@@ -107,9 +112,10 @@ class Schedule(drivers.IrcDriver):
     def rescheduleEvent(self, name, t):
         # The event keeps the arguments it was scheduled with.
         (args, kwargs) = ([], {})
-        for x in self.schedule:
-            if x[1] == name:
-                (args, kwargs) = (x[2], x[3])
+        with self.lock:
+            for x in self.schedule:
+                if x[1] == name:
+                    (args, kwargs) = (x[2], x[3])
         f = self.removeEvent(name)
         self.addEvent(f, t, name=name, args=args, kwargs=kwargs)
 
